@@ -8,13 +8,14 @@ from . import common as C
 
 
 class Case:
-    __slots__ = ("line", "tag", "text", "expect")
+    __slots__ = ("line", "tag", "text", "expect", "group")
 
     def __init__(self, line, tag="", text=None, expect=None):
         self.line = line  # protocol line sent to harness and driver
         self.tag = tag  # generator stratum, for the input distribution
         self.text = text  # human-readable form of the input
         self.expect = expect  # spec expectation computed beforehand (optional)
+        self.group = None  # cases of one group must answer alike (metamorphic oracles)
 
 
 class Prop:
